@@ -67,6 +67,8 @@ pub struct Stats {
     pub lo_gt_hi: bool,
     pub ctx_values_seen: u32,
     pub fuel_out: bool,
+    /// failure events with unspecified positions were generated (nested_delimiters' scanner)
+    pub unspecified_events: bool,
     pub sites: Vec<&'static str>,
 }
 
@@ -148,6 +150,11 @@ pub fn eval(g: &G, toks: &[char], opts: RefOpts) -> RefOut {
         }
         Err(()) => (None, false),
     };
+    if rf.stats.unspecified_events {
+        if let Some(a) = &mut rf.alt {
+            a.fuzzy = true;
+        }
+    }
     RefOut { prefix, accepted, emitted: rf.emitted, alt: rf.alt, log: rf.log, stats: rf.stats }
 }
 
@@ -157,8 +164,11 @@ impl<'a> Rf<'a> {
     }
 
     // ---- failure bookkeeping: furthest position wins, equal positions merge, user errors win ----
-    pub fn add(&mut self, new: AltR) {
+    pub fn add(&mut self, mut new: AltR) {
         self.stats.events += 1;
+        if self.stats.unspecified_events {
+            new.fuzzy = true;
+        }
         match self.alt.take() {
             None => self.alt = Some(new),
             Some(mut old) => {
@@ -982,6 +992,15 @@ impl<'a> Rf<'a> {
         match r {
             Ok((v, e)) => {
                 self.stats.recoveries_fired += 1;
+                let site = match s {
+                    Strat::Via(_) => "strat:via",
+                    Strat::SkipUntil { .. } => "strat:skip_until",
+                    Strat::SkipRetry { .. } => "strat:skip_retry",
+                    Strat::Nested { .. } => "strat:nested",
+                };
+                if !self.stats.sites.contains(&site) {
+                    self.stats.sites.push(site);
+                }
                 self.emitted.push(Emis { kind: EmisKind::Recovered(e_alt.clone()), span: e_alt.span, at: e, ctx: e_alt.ctx.clone() });
                 if self.opts.vtake_alt {
                     let keep = e_alt;
@@ -1067,6 +1086,7 @@ impl<'a> Rf<'a> {
                 // exactly one balanced region starting at `open`
                 let mut pairs = vec![(*open, *close)];
                 pairs.extend(others.iter().copied());
+                self.stats.unspecified_events = true;
                 match self.balanced(&pairs, 0, pos) {
                     Some(e) => {
                         self.adv(e);
